@@ -94,3 +94,86 @@ def check(ctx):
             c = ctx.one_call(gb, f"{CV}::get_from_cache_or_db")
             ctx.arg_origin(f"2.{fn}-cache", c, 1, f"field:{CV}.{cache}", depth=0)
             ctx.arg_origin(f"2.{fn}-db-method", c, 4, f"fnref:fuel_core_p2p::ports::P2pDb::{dbm}", depth=0)
+
+    # -- 5. codec: a message within the size limit is read whole and decoded; nothing else rejects it --
+    with ctx.clause("5.codec"):
+        H = "fuel_core_p2p::codecs::request_response::RequestResponseMessageHandler"
+        CODEC = "libp2p_request_response::codec::Codec"
+        from core import decode_bool_test
+        for fn in ("read_request", "read_response"):
+            u = F.unit(f"<{H} as {CODEC}>::{fn}")
+            v, cs = ctx.reach_calls([u], ["fuel_core_p2p"], max_depth=3, stop=["<* as fuel_core_p2p::codecs::Decode>::decode"])
+            bodies = []
+            for q, _ in v:
+                for uu in F.units(q[0] if isinstance(q, tuple) else q):
+                    bodies += uu.bodies
+            bodies = list({id(x): x for x in bodies}.values())
+            tk = [c for x in bodies for c in x.calls if c.bb in x.live and c.name == "take" and "AsyncReadExt" in c.path]
+            rd = [c for x in bodies for c in x.calls if c.bb in x.live and c.name == "read_to_end"]
+            dc = [c for x in bodies for c in x.calls if c.bb in x.live and c.is_path("fuel_core_p2p::codecs::Decode::decode")]
+            ctx.expect_sites(f"5.{fn}-bounded-read", tk, exactly=1, what="socket.take(max_response_size)")
+            ctx.expect_sites(f"5.{fn}-read-to-end", rd, exactly=1, what="read_to_end(&mut buffer)")
+            ctx.expect_sites(f"5.{fn}-decode", dc, at_least=1, what="codec.decode(&buffer)")
+            if tk and tk[0].body.unit == u.q:
+                ctx.arg_origin(f"5.{fn}-limit-is-configured-size", tk[0], 1, f"field:{H}.max_response_size", depth=2)
+            elif tk:
+                # the bounded read lives in a helper: the limit handed to the helper must be the configured size
+                hc = [c for x in u.bodies for c in x.calls if c.bb in x.live and (c.path == tk[0].body.unit or c.res == tk[0].body.unit)]
+                okh = any(atom_match(Origins(c.body, 2).atoms(a), f"field:{H}.max_response_size") for c in hc for a in c.args)
+                ctx.add(f"5.{fn}-limit-is-configured-size", "PROV", okh, f"the helper {tk[0].body.unit} is called with max_response_size", sites=[c.where() for c in hc], site_key=fn + ":helper")
+            if tk and rd:
+                ctx.arg_origin(f"5.{fn}-reads-the-bounded-stream", rd[0], 0, "call:futures_util::io::AsyncReadExt::take", depth=0)
+            # the only rejections are a failed read or a failed decode: a comparison of the received length with the limit
+            # may reject only strictly larger messages (take() already caps the read at the limit, so `>=` refuses a
+            # message of exactly the allowed size)
+            bad = []
+            ntests = 0
+            for x in bodies:
+                o = Origins(x, 1)
+                errs = x.error_blocks()
+                for i in sorted(x.live):
+                    t = x.blocks[i]["t"]
+                    if t["k"] != "switch" or t.get("dt") != "bool":
+                        continue
+                    for test in decode_bool_test(x, o, t["d"]):
+                        if test[0] != "cmp":
+                            continue
+                        _, rel, a, b_, flip = test
+                        aa, ab = o.atoms(a), o.atoms(b_)
+                        is_len = lambda s: any(k == "call" and str(n).endswith("::len") for k, n in s)
+                        if not (is_len(aa) or is_len(ab)):
+                            continue
+                        ntests += 1
+                        # normalise to  len REL other
+                        r = rel if is_len(aa) else {"Lt": "Gt", "Gt": "Lt", "Le": "Ge", "Ge": "Le", "Eq": "Eq", "Ne": "Ne"}[rel]
+                        from core import Switch
+                        sw = Switch(x, i)
+                        for truth in (True, False):
+                            want = truth != flip
+                            for lab in sw.edges_for_truth(want):
+                                tb = ctx._edge_target(x, (i, lab))
+                                rejects = x.path([tb], x.return_blocks(), cut_blocks=errs) is None
+                                if rejects:
+                                    eff = r if truth else {"Lt": "Ge", "Ge": "Lt", "Gt": "Le", "Le": "Gt", "Eq": "Ne", "Ne": "Eq"}[r]
+                                    if eff != "Gt":
+                                        bad.append(f"{x.defq} line {t.get('line')}: rejects when len {eff} limit")
+            ctx.add(f"5.{fn}-no-rejection-at-the-limit", "GUARD", not bad, "a message whose length equals the limit is not refused (only `len > limit` may reject)" +
+                    (": " + "; ".join(bad) if bad else f" ({ntests} length tests on the read path)"), sites=bad or [u.q], site_key=fn + ":limit")
+        for fn in ("write_request", "write_response"):
+            u = F.unit(f"<{H} as {CODEC}>::{fn}")
+            enc = [c for x in u.bodies for c in x.calls if c.bb in x.live and c.is_path("fuel_core_p2p::codecs::Encode::encode")]
+            wa = [c for x in u.bodies for c in x.calls if c.bb in x.live and c.name == "write_all"]
+            ctx.expect_sites(f"5.{fn}-encode", enc, at_least=1, what="codec.encode(&message)")
+            ctx.add(f"5.{fn}-writes-each-encoding", "PAIR", len(wa) == len(enc) and len(enc) >= 1, f"{len(enc)} encodings, {len(wa)} write_all calls", sites=[c.where() for c in wa], site_key=fn)
+            for c in wa:
+                ctx.arg_origin(f"5.{fn}-writes-encoded-bytes-L{wa.index(c)}", c, 1, "call:fuel_core_p2p::codecs::Encode::encode", depth=2)
+        ru = F.unit(f"<{H} as {CODEC}>::read_response")
+        wu = F.unit(f"<{H} as {CODEC}>::write_response")
+        PR = "fuel_core_p2p::request_response::protocols::RequestResponseProtocol"
+        for nm, u in (("read_response", ru), ("write_response", wu)):
+            x = ctx.body_with(u, "fuel_core_p2p::codecs::Decode::decode" if nm == "read_response" else "fuel_core_p2p::codecs::Encode::encode")
+            ctx.dispatch_total(f"5.{nm}-protocol-dispatch", x, PR)
+            arms = ctx.match_arms(x, PR)
+            conv = {v: [c for c in x.calls if c.bb in arms.get(v, ()) and c.name in ("into", "from")] for v in ("V1", "V2")}
+            ctx.add(f"5.{nm}-v1-converts-v2-does-not", "MIRROR", len(conv["V1"]) == 1 and len(conv["V2"]) == 0,
+                    "protocol V1 goes through the V1ResponseMessage conversion, V2 is (de)coded directly", sites=[c.where() for c in conv["V1"] + conv["V2"]], site_key=nm)
